@@ -83,8 +83,13 @@ try:
     os.makedirs(dst, exist_ok=True)
     shutil.copy(patch, dst)
     for f in os.listdir(deliv):
-        if f not in ("patch.diff", "meta.json"):
-            shutil.copy(os.path.join(deliv, f), dst)
+        if f in ("patch.diff", "meta.json"):
+            continue
+        src = os.path.join(deliv, f)
+        if os.path.isdir(src):
+            shutil.copytree(src, os.path.join(dst, f), dirs_exist_ok=True)
+        else:
+            shutil.copy(src, dst)
     meta["verified"] = res
     json.dump(meta, open(os.path.join(dst, "meta.json"), "w"), indent=1)
     print(json.dumps({k: v for k, v in res.items() if k not in ("demo_tail_with_change",)}, indent=1))
